@@ -62,6 +62,8 @@ func lookupThroughWorker(r *lib.Run, idx int) {
 	served := map[enode.ID]string{}
 	asked := map[enode.ID]int{}
 	var peers []*pnode.Adversary
+	var target enode.ID
+	rng.Read(target[:])
 	for i := 0; i < 3; i++ {
 		b, err := hub.StartAdversary(pnode.AdvOpts{Key: pnode.NewKey(rng), Addr: pnode.Addr4(53, byte(1+i), byte(idx), 1, 9100), Versions: []uint8{0, 1}, RespTimeout: time.Second})
 		if err != nil {
@@ -71,8 +73,32 @@ func lookupThroughWorker(r *lib.Run, idx int) {
 		defer b.Stop()
 		peers = append(peers, b)
 		seen[b.ID()] = true
+		// the records this peer will list are prepared before the lookup starts (grinding keys for a given log-distance
+		// takes time, and an answer that misses the asker's response timeout would not have been seen by the lookup)
 		brng := r.RNG(fmt.Sprintf("C-peer-%d", idx), i)
-		host := 0
+		want := map[int]bool{}
+		td := enode.LogDist(target, b.ID())
+		for _, d := range []int{td, td + 1, td - 1} {
+			if d >= 250 && d <= 256 {
+				want[d] = true
+			}
+		}
+		var items [][]byte
+		var listed []*enode.Node
+		for host := 0; len(items) < 5 && len(want) > 0; {
+			k := pnode.NewKey(brng)
+			id := enode.PubkeyToIDV4(&k.PublicKey)
+			if !want[enode.LogDist(b.ID(), id)] {
+				continue
+			}
+			host++
+			// all listed records in 8.8.8.0/24: admitted to the asker's table only up to its per-/24 limits
+			x := pnode.SignedNode(k, netip.AddrFrom4([4]byte{8, 8, 8, byte(1 + i*60 + host%60)}), 30303+host, 1)
+			enc, _ := rlp.EncodeToBytes(x.Record())
+			items = append(items, enc)
+			listed = append(listed, x)
+		}
+		reply := append([]byte{portalwire.NODES, 1, 5, 0, 0, 0}, sszByteLists(items)...)
 		b.OnTalk(string(portalwire.History), func(_ *enode.Node, _ *net.UDPAddr, msg []byte) []byte {
 			if len(msg) > 0 && msg[0] == portalwire.PING {
 				return pongC(b.Self().Seq(), msg)
@@ -81,40 +107,29 @@ func lookupThroughWorker(r *lib.Run, idx int) {
 			if !ok {
 				return nil
 			}
-			want := map[int]bool{}
+			covered := 0
 			for _, d := range ds {
-				if d >= 250 {
-					want[d] = true
+				if want[d] {
+					covered++
 				}
+			}
+			if covered != len(want) || len(want) == 0 {
+				return []byte{portalwire.NODES, 1, 5, 0, 0, 0} // not the lookup's request for this target (e.g. a record request)
 			}
 			mu.Lock()
 			defer mu.Unlock()
 			asked[b.ID()]++
-			var items [][]byte
-			for len(items) < 5 && len(want) > 0 {
-				k := pnode.NewKey(brng)
-				id := enode.PubkeyToIDV4(&k.PublicKey)
-				if !want[enode.LogDist(b.ID(), id)] {
-					continue
-				}
-				host++
-				// all listed records in 8.8.8.0/24: admitted to the asker's table only up to its per-/24 limits
-				x := pnode.SignedNode(k, netip.AddrFrom4([4]byte{8, 8, 8, byte(1 + i*60 + host%60)}), 30303+host, 1)
-				enc, _ := rlp.EncodeToBytes(x.Record())
-				items = append(items, enc)
+			for _, x := range listed {
 				seen[x.ID()] = true
-				served[x.ID()] = fmt.Sprintf("listed by peer %d at log-distance %d, address %s", i, enode.LogDist(b.ID(), id), x.IPAddr())
+				served[x.ID()] = fmt.Sprintf("listed by peer %d at log-distance %d, address %s", i, enode.LogDist(b.ID(), x.ID()), x.IPAddr())
 			}
-			out := []byte{portalwire.NODES, 1, 5, 0, 0, 0}
-			return append(out, sszByteLists(items)...)
+			return reply
 		})
 	}
 	tab := R.P.VerifTable()
 	for _, b := range peers {
 		tab.VerifAddFound(b.Self(), true)
 	}
-	var target enode.ID
-	rng.Read(target[:])
 	res := R.P.Lookup(target)
 	r.Eval(1)
 	mu.Lock()
